@@ -456,6 +456,7 @@ func (r *UnitRun) allocStruct(st *State, t types.Type, sv Val, n ast.Node) Val {
 	st.assume(not(eq(ref, w.nilOf(sort))))
 	st.assume(eq(sx("birth_"+sanitize(sort), ref), intLit(int64(r.allocN))))
 	st.markFresh(ref)
+	st.ghost["alloc:"+ref] = Val{K: KRef, T: ref, Sort: sort, Go: types.NewPointer(sty)}
 	// a new object is not yet stored anywhere: it differs from every element of every live slice of its sort
 	for o, arr := range st.arrs {
 		if o.elem == sort {
